@@ -48,6 +48,8 @@ def run(ctx):
     r_dyn(ctx)
     r4_dispatch(ctx)
     shared.whole_cell_consumption(ctx, 'R5')
+    from .. import regen
+    regen.check(ctx, 'R6')
 
 
 def _closure(tree, cats):
